@@ -566,6 +566,8 @@ func areaCrash(r *Rng, n int, dir string) (*AreaOut, error) {
 			case !returned:
 				out.Oracle = append(out.Oracle, OracleFailure{"C16", "once-exits", fmt.Sprintf("instance %s: Sync with only_once did not return within 6 s (storage healthy)", oin.name), map[string]any{"native": native, "events": lst(events)}})
 			case onceErr == nil && !wrote.IsZero() && !up.After(wrote):
+				// (C01 too: what is never published cannot reach the other replicas, however long they keep merging)
+				out.Oracle = append(out.Oracle, OracleFailure{"C01", "only-once-publishes", fmt.Sprintf("instance %s: the application committed while Lightning Stream was down; the only_once run that followed returned without error but uploaded nothing afterwards: no other replica can ever receive that commit", oin.name), map[string]any{"native": native, "events": lst(events)}})
 				out.Oracle = append(out.Oracle, OracleFailure{"C09", "only-once-publishes", fmt.Sprintf("instance %s: the application committed while Lightning Stream was down; the only_once run that followed returned without error but uploaded nothing afterwards", oin.name), map[string]any{"native": native, "events": lst(events)}})
 			}
 			stop(oin)
